@@ -35,9 +35,11 @@ struct Tally {
     worst_centre_dev: f64,
     worst_leaf_dev: f64,
     worst_vector_dev: f64,
+    extreme_centres: Vec<f64>,
 }
 
 fn reduce(mut a: Tally, b: Tally) -> Tally {
+    a.extreme_centres.extend(b.extreme_centres.iter().cloned());
     a.cases += b.cases;
     a.calls += b.calls;
     a.sampler_calls_checked += b.sampler_calls_checked;
@@ -349,15 +351,45 @@ fn key_part<V: Variant>(ctx: &mut Ctx, tier: Tier, seeds: &[u64]) {
                         sign_case::<V>(&mut t, key, &pk, &rb, &leaves, msg, 60 + mi as u64, devs, seed, which);
                     }
                 }
+                // steering by the centres: among a ladder of messages, the executions whose sampler calls have
+                // the most negative and the most positive centre get the full per-call check as well
+                if *which == "generated" {
+                    let nscan = if tier.thorough() { 160 } else { 40 };
+                    let mut best: Option<(f64, usize)> = None;
+                    let mut worst: Option<(f64, usize)> = None;
+                    for i in 0..nscan {
+                        let msg = format!("centre steering {}", i).into_bytes();
+                        fh::arm_leaf_trace();
+                        let r = catch(|| crate::util::with_stream(90, || V::sign(&msg, key)));
+                        let trace = fh::take_leaf_trace();
+                        if r.is_err() {
+                            continue;
+                        }
+                        let lo = trace.iter().map(|x| x.0).fold(f64::INFINITY, f64::min);
+                        let hi = trace.iter().map(|x| x.0).fold(f64::NEG_INFINITY, f64::max);
+                        if best.map(|b| lo < b.0).unwrap_or(true) {
+                            best = Some((lo, i));
+                        }
+                        if worst.map(|b| hi > b.0).unwrap_or(true) {
+                            worst = Some((hi, i));
+                        }
+                    }
+                    for (c, i) in [best, worst].into_iter().flatten() {
+                        t.extreme_centres.push(c);
+                        let msg = format!("centre steering {}", i).into_bytes();
+                        sign_case::<V>(&mut t, key, &pk, &rb, &leaves, &msg, 90, &[], seed, which);
+                    }
+                }
             }
             t
         })
         .reduce(Tally::default, reduce);
     let mut part = Part::new(
         &format!("keys_and_signatures_{}", n),
-        &format!("{} keys (seeds {:?}), each as generated and as reloaded through to_bytes/from_bytes: I1 all n leaves = sigma(spec)/||b~_k|| from a dense 2n x 2n Gram-Schmidt in tower order and within [sigma_min, sigma_max]; I2 for every signing execution (3 messages x default environment and all sets of <= {} forced sampler answers at 4 positions): each of the 2n sampler calls of every attempt has the nearest-plane centre of the dense reference recursion (tolerance 1e-6), its leaf as width, the specification's SamplerZ output on the logged bytes, and the emitted (s1,s2) equals target - sum z_k b_k; I3 norm within the bound", seeds.len(), seeds, if tier.thorough() { 2 } else { 1 }),
+        &format!("{} keys (seeds {:?}), each as generated and as reloaded through to_bytes/from_bytes: I1 all n leaves = sigma(spec)/||b~_k|| from a dense 2n x 2n Gram-Schmidt in tower order and within [sigma_min, sigma_max]; I2 for every signing execution (3 messages x default environment and all sets of <= {} forced sampler answers at 4 positions): each of the 2n sampler calls of every attempt has the nearest-plane centre of the dense reference recursion (tolerance 1e-6), its leaf as width, the specification's SamplerZ output on the logged bytes, and the emitted (s1,s2) equals target - sum z_k b_k; I3 norm within the bound; plus, per key, the two executions of a ladder of 40 (thorough 160) messages whose sampler calls have the most negative and the most positive centre", seeds.len(), seeds, if tier.thorough() { 2 } else { 1 }),
     );
     part.exhaustive = true;
+    part.set("extreme_centres_steered_to", json!(t.extreme_centres));
     if t.sampler_calls_checked == 0 && t.nviol == 0 {
         machinery_error("C10: no sampler call was checked (vacuity guard)");
     }
@@ -366,7 +398,7 @@ fn key_part<V: Variant>(ctx: &mut Ctx, tier: Tier, seeds: &[u64]) {
 
 // ------------------------------------------------------------------ small scope: all outcome sequences
 
-fn small_scope(ctx: &mut Ctx, n: usize, menu: &[(usize, u8)]) {
+fn small_scope(ctx: &mut Ctx, n: usize, menu: &[(usize, u8)], scales: &[f64]) {
     // small integer bases B' = [[g, f], [G, F]] (full rank; the NTRU equation is irrelevant for I2)
     let bases: Vec<[Vec<i64>; 4]> = if n == 2 {
         vec![[vec![3, 1], vec![1, -2], vec![-1, 4], vec![5, 2]], [vec![7, -2], vec![0, 3], vec![2, 2], vec![-1, 6]]]
@@ -377,7 +409,7 @@ fn small_scope(ctx: &mut Ctx, n: usize, menu: &[(usize, u8)]) {
     };
     let sg = 8.0; // any sigma: leaves are sigma/||b~||; widths are kept inside [1.0, 1.8205] by scaling below
     let mut t_all = Tally::default();
-    for (bi, b) in bases.iter().enumerate() {
+    for (bi, b, scale) in bases.iter().enumerate().flat_map(|(bi, b)| scales.iter().map(move |&sc| (bi, b, sc))) {
         let (g, f, cg, cf) = (&b[0], &b[1], &b[2], &b[3]);
         let rb = ref_basis(g, f, cg, cf);
         // choose sigma so that the largest leaf is 1.8: leaves = s / sqrt(D)
@@ -393,8 +425,9 @@ fn small_scope(ctx: &mut Ctx, n: usize, menu: &[(usize, u8)]) {
             continue;
         }
         // a generic real target t = (t0, t1) in coefficient form
-        let t0: Vec<f64> = (0..n).map(|i| 0.37 + 1.25 * i as f64).collect();
-        let t1: Vec<f64> = (0..n).map(|i| -2.61 + 0.5 * i as f64).collect();
+        // (scaled: the sampler centres then range over thousands in both directions)
+        let t0: Vec<f64> = (0..n).map(|i| scale * (0.37 + 1.25 * i as f64)).collect();
+        let t1: Vec<f64> = (0..n).map(|i| scale * (-2.61 + 0.5 * i as f64)).collect();
         // ffsampling works on t in FFT form
         let t0f = fh::complex_fft(&t0.iter().map(|&x| (x, 0.0)).collect::<Vec<_>>());
         let t1f = fh::complex_fft(&t1.iter().map(|&x| (x, 0.0)).collect::<Vec<_>>());
@@ -452,7 +485,7 @@ fn small_scope(ctx: &mut Ctx, n: usize, menu: &[(usize, u8)]) {
                 fh::arm_leaf_trace();
                 let r = catch(|| fh::ffsampling_small(&t0f, &t1f, &b0, s, smin, &mut rng));
                 let trace = fh::take_leaf_trace();
-                let case = || json!({"kind":"small","n":n,"basis":bi,"outcomes":seq});
+                let case = || json!({"kind":"small","n":n,"basis":bi,"scale":scale,"outcomes":seq});
                 let tag = format!("small n={}", n);
                 match r {
                     Ok((z0f, z1f)) => {
@@ -497,7 +530,7 @@ fn small_scope(ctx: &mut Ctx, n: usize, menu: &[(usize, u8)]) {
     }
     let mut part = Part::new(
         &format!("small_scope_n{}", n),
-        &format!("n = {}: ffSampling on harness-built integer bases with a tree from the real gram/ffldl/normalize_tree, explored over ALL sequences of sampler outcomes from a menu of {} (z0, sign) answers for each of the {} calls ({}^{} executions per basis): every call's centre equals the dense nearest-plane centre given the earlier outcomes, widths are the leaves, and the returned z is the combination of the recorded outputs", n, menu.len(), 2 * n, menu.len(), 2 * n),
+        &format!("n = {}: ffSampling on harness-built integer bases (target vectors scaled by {:?}, so that centres range over thousands in both directions) with a tree from the real gram/ffldl/normalize_tree, explored over ALL sequences of sampler outcomes from a menu of {} (z0, sign) answers for each of the {} calls ({}^{} executions per basis and scale): every call's centre equals the dense nearest-plane centre given the earlier outcomes, widths are the leaves, every output is the specification's SamplerZ on the same bytes, and the returned z is the combination of the recorded outputs", n, scales, menu.len(), 2 * n, menu.len(), 2 * n),
     );
     part.exhaustive = true;
     t_all.into_part(ctx, part);
@@ -590,13 +623,13 @@ pub fn run(tier: Tier) {
     leaf_window::<V512>(&mut ctx, tier);
     leaf_window::<V1024>(&mut ctx, tier);
     let full: Vec<(usize, u8)> = vec![(0, 0), (0, 1), (1, 0), (1, 1), (2, 0), (2, 1)];
-    small_scope(&mut ctx, 2, &full);
+    small_scope(&mut ctx, 2, &full, &[1.0, -1.0, 97.0, -97.0, 1000.0, -1000.0, 7000.0, -7000.0]);
     if tier.thorough() {
-        small_scope(&mut ctx, 4, &full);
-        small_scope(&mut ctx, 8, &[(0, 0), (1, 1), (2, 0)]);
+        small_scope(&mut ctx, 4, &full, &[1.0, -800.0]);
+        small_scope(&mut ctx, 8, &[(0, 0), (1, 1), (2, 0)], &[1.0]);
     } else {
-        small_scope(&mut ctx, 4, &[(0, 0), (1, 1), (2, 0)]);
-        small_scope(&mut ctx, 8, &[(0, 1), (1, 0)]);
+        small_scope(&mut ctx, 4, &[(0, 0), (1, 1), (2, 0)], &[1.0, -800.0, 3000.0]);
+        small_scope(&mut ctx, 8, &[(0, 1), (1, 0)], &[1.0]);
     }
     ctx.sample(json!({"invariant":"I2","call":"r-th sampler call of an attempt <-> Gram-Schmidt row k = 2(n-1-floor(r/2)) + (r mod 2) of the rows X^brv(i)(g,f), X^brv(i)(G,F)","centre":"<target - sum_{later calls} z r, b~_k> / ||b~_k||^2"}));
     ctx.assume("the literal statement (E<s,u> = 0, E<s,u>^2 = sigma^2 along all directions) is NOT decided directly: it follows from I1-I3 and C09 by the Klein/GPV nearest-plane theorem, which is mathematics and not checked here");
